@@ -25,8 +25,8 @@ enum Code { F_OPEN = 1, F_WRITE, F_WRITESTR, F_READ, F_READALL, F_SEEK, F_SIZE, 
 static const char* codeName[] = {"?", "open", "write", "write(String)", "read", "readAll", "seek", "size", "close", "copy", "rename", "unlink", "exists", "symlink", "Directory::create", "Directory::unlink", "Directory::exists", "Directory::list", "simplifyPath", "decompose", "getRelativePath"};
 static const char* opName(int c) { return (c > 0 && c < CODE_N) ? codeName[c] : "?"; }
 
-static const char* names[] = {"a", "b", "c", "d", "d/e", "d/e/f", "d/g", "d/n", "l", "d/ld", "dangling", "x/y/z", "x", "d/e/h/i", "lf"};
-static const int NNAMES = 15;
+static const char* names[] = {"a", "b", "c", "d", "d/e", "d/e/f", "d/g", "d/n", "l", "d/ld", "dangling", "x/y/z", "x", "d/e/h/i", "lf", "d/..data", "d/..data/k", "d/e/..."};   /* the last three: real names that merely begin with dots */
+static const int NNAMES = 18;
 struct Slot { File* f; int rfd; std::string name; bool open; };
 struct Ctx { const RunSpec* spec; Slot slot[2]; uint64_t wseq; std::string outside0; bool stop; int opIndex; };
 static Ctx C;
